@@ -5,6 +5,7 @@ import (
 	"encoding/json"
 	"errors"
 	"fmt"
+	"os"
 	"sort"
 	"strings"
 	"sync"
@@ -207,9 +208,9 @@ func genStallScript() *rapid.Generator[Script] {
 			}
 			return 0
 		}
-		nStall := rapid.SampledFrom([]int{1, 1, 2}).Draw(t, "nstall")
+		nStall := rapid.SampledFrom([]int{1, 1, 1, 2}).Draw(t, "nstall")
 		nHealthy := rapid.IntRange(0, 2).Draw(t, "nhealthy")
-		nPub := rapid.SampledFrom([]int{0, 0, 1, 2}).Draw(t, "npub")
+		nPub := rapid.SampledFrom([]int{0, 0, 0, 1, 2}).Draw(t, "npub")
 		episodesLeft := kit.Pick(2, 3)
 		id := 0
 		for i := 0; i < nStall; i++ {
@@ -236,6 +237,7 @@ func genStallScript() *rapid.Generator[Script] {
 				case "episode":
 					had = true
 					episodesLeft--
+					st.Key = a.Steps[0].Key // (used when the actor is not subscribed at that point)
 					st.Arg, st.Mode = drawEpisode(t, sc.MaxFail)
 				}
 				a.Steps = append(a.Steps, st)
@@ -377,6 +379,7 @@ type world struct {
 	calls []*call
 	subs  []*subRec
 	marks []mark
+	notes []string
 	fail  *kit.Failure
 	ev    map[string]int
 }
@@ -564,8 +567,8 @@ func (w *world) pending(r *subRec) (out []*call, obligations int) {
 // closed; hitting the cap with an open channel is the violation. It is called
 // by the owning actor only, so the consumer reads for the whole wait.
 func (w *world) await(r *subRec, where string) {
-	if r.slow > 0 || r.paused.Load() {
-		return // not reading (or reading slowly) by script: the documented publish timeout may drop its events
+	if r.slow > slowTolerated || r.paused.Load() {
+		return // not reading (or reading too slowly) by script: the documented publish timeout may drop its events
 	}
 	deadline := gotime.Now().Add(waitCap)
 	var prunedSince gotime.Time // when the subscription was first seen flagged dead / removed from the set
@@ -607,6 +610,11 @@ func (w *world) await(r *subRec, where string) {
 			if !pruned && w.lw.starved() {
 				// still subscribed: a send may have timed out because this process did not get the CPU
 				w.count("inconclusive_starved")
+				w.mu.Lock()
+				w.notes = append(w.notes, fmt.Sprintf("scripts (inconclusive, process starved: a 1 ms sleeper overslept %v): %s: subscriber actor %d, still subscribed and reading, "+
+					"was not told about %d completed publish(es) (first: %q by actor %d) within %v and its channel stayed open",
+					gotime.Duration(w.lw.max.Load()), where, r.id, len(pend), pend[0].tag, pend[0].id, waitCap))
+				w.mu.Unlock()
 				return
 			}
 			if pruned && now.Before(prunedSince.Add(waitCap)) {
@@ -639,6 +647,11 @@ func (w *world) await(r *subRec, where string) {
 type actorState struct {
 	cur *subRec
 }
+
+// slowTolerated: a consumer that pauses this long between two reads is far
+// from the 100 ms publish timeout and has the same obligations as a prompt
+// one (the 25 ms one is left out: its margin is not above the lag guard's).
+const slowTolerated = 5 * gotime.Millisecond
 
 // subscribe subscribes actor id on key k and starts its consumer; nil if the
 // subscriber limit rejected it.
@@ -730,7 +743,27 @@ func (w *world) publish(ai, si int, op string, id, k int, tag string) *call {
 // of that actor stamped after the publish started) or observes its channel
 // closed; the changes of step 2 may be dropped by the publish timeout. Whether
 // r was pruned is only recorded (classes).
-func (w *world) episode(ai, si int, s Step, r *subRec) {
+func (w *world) episode(ai, si int, a *Actor, s Step, st *actorState) {
+	r := st.cur
+	if r == nil {
+		// not watching at the moment: watch first
+		if r = w.subscribe(ai, si, a.ID, s.Key%w.sc.Keys, 0, false); r == nil {
+			return
+		}
+		st.cur = r
+	}
+	if r.closedSeen() {
+		// The publisher has closed this subscription (pruned earlier). Do what
+		// a client does whose watch stream ended: clean up and watch again, so
+		// that the episode runs on a live subscription.
+		w.count("episode:reconnected_first")
+		st.cur = nil
+		w.unsubscribe(ai, si, r)
+		if r = w.subscribe(ai, si, r.id, r.key, 0, false); r == nil {
+			return
+		}
+		st.cur = r
+	}
 	th, n, style := w.threshold(), min(max(s.Arg, 0), 6), s.Mode
 	rel := "below"
 	if n == th {
@@ -784,9 +817,9 @@ func (w *world) episode(ai, si int, s Step, r *subRec) {
 		}
 	}
 	w.jitter(s.Pre+3, si)
+	w.mark("subscriber id %d key=%d resumes reading (%s; pruned by now: %v)", r.id, r.key, name, pruned)
 	w.resume(r)
 	resumedAt := r.resumedAt.Load()
-	w.mark("subscriber id %d key=%d resumes reading (%s; pruned by now: %v)", r.id, r.key, name, pruned)
 	w.publish(ai, si, "pub", drv, r.key, name+".after-resume")
 	w.await(r, where+", after the resume")
 
@@ -795,7 +828,7 @@ func (w *world) episode(ai, si int, s Step, r *subRec) {
 		if pruned {
 			w.count("episode:pruned->closed_observed")
 		}
-	} else if len(left) == 0 && r.slow == 0 {
+	} else if len(left) == 0 && r.slow <= slowTolerated {
 		w.count("episode:told_after_resume")
 	}
 	r.mu.Lock()
@@ -849,9 +882,7 @@ func (w *world) exec(ai int, a *Actor, si int, s Step, st *actorState) {
 			w.mark("subscriber id %d key=%d resumes reading", st.cur.id, st.cur.key)
 		}
 	case "episode":
-		if st.cur != nil {
-			w.episode(ai, si, s, st.cur)
-		}
+		w.episode(ai, si, a, s, st)
 	case "pub", "pubw":
 		w.publish(ai, si, s.Op, a.ID, s.Key%w.sc.Keys, fmt.Sprintf("a%d.s%d", ai, si))
 	}
@@ -917,10 +948,18 @@ func (w *world) run() {
 	w.mu.Lock()
 	subs := append([]*subRec{}, w.subs...)
 	w.mu.Unlock()
+	closeCap, expired := gotime.After(waitCap), false // one cap for all: every Unsubscribe has returned by now
 	for _, r := range subs {
+		if !expired {
+			select {
+			case <-r.done:
+			case <-closeCap:
+				expired = true
+			}
+		}
 		select {
 		case <-r.done:
-		case <-gotime.After(waitCap):
+		default:
 			w.count("channel_left_open_after_unsub")
 			if r.unsubExit != 0 {
 				w.failf("OPEN-AFTER-UNSUBSCRIBE", "subscriber actor %d on key %d: %v after its Unsubscribe returned (stamp %d) its event channel is still open "+
@@ -1087,6 +1126,7 @@ func (w *world) history(limit int) []string {
 // evaluation of one case
 
 type outcome struct {
+	notes      []string
 	fail       *kit.Failure
 	hist       []string
 	ev         map[string]int
@@ -1129,6 +1169,7 @@ func evalScript(sc Script) outcome {
 		for k, v := range w.ev {
 			out.ev[k] += v
 		}
+		out.notes = append(out.notes, w.notes...)
 		if w.fail != nil && (out.fail == nil || out.fail.Kind == "LEAK-PUBLISHER") {
 			out.fail = w.fail
 			out.hist = w.history(250)
@@ -1136,6 +1177,9 @@ func evalScript(sc Script) outcome {
 	}
 	if out.fail != nil && out.hist == nil {
 		out.hist = worlds[0].history(250)
+	}
+	if out.fail == nil && os.Getenv("VERIF_SHOW_HISTORY") != "" {
+		out.hist = worlds[0].history(400)
 	}
 	out.nonTrivial = out.ev["nontrivial"] > 0
 	return out
@@ -1245,6 +1289,20 @@ func runScripts(t *testing.T, part string, gen *rapid.Generator[Script], nonTriv
 				col.SetExtra("worlds:"+k, totals[k])
 			}
 		}
+		if os.Getenv("C17_DEBUG") != "" {
+			b, _ := json.Marshal(sc)
+			eps := map[string]int{}
+			for k, v := range out.ev {
+				if strings.HasPrefix(k, "episode") {
+					eps[k] = v
+				}
+			}
+			fmt.Printf("DEBUG case %s\n      %v\n", b, eps)
+		}
+		for _, n := range out.notes {
+			col.Note("%s", n)
+			fmt.Println("NOTE " + n)
+		}
 		col.Record(h, nonTrivial(out) && out.fail == nil, scriptClasses(sc, out.ev), func() any {
 			return map[string]any{"script": sc, "events": out.ev}
 		})
@@ -1293,10 +1351,13 @@ func replayScript(raw json.RawMessage) *kit.Failure {
 		rounds = 5
 	}
 	for i := 0; i < rounds; i++ {
-		if out := evalScript(sc); out.fail != nil {
+		out := evalScript(sc)
+		if out.fail != nil || (i == 0 && os.Getenv("VERIF_SHOW_HISTORY") != "") {
 			for _, h := range out.hist {
 				fmt.Printf("    %s\n", h)
 			}
+		}
+		if out.fail != nil {
 			return out.fail
 		}
 	}
